@@ -929,6 +929,7 @@ fn check_nonzero(value: u64, tag: &'static str) -> (r: Result<NonZeroU64, Error>
         .ok_or_else(|| Error::deserial(format!("malformed data: {tag} cannot be zero")))
 }
 
+#[verifier::external_body] fn vx_documented_panic(c: bool) ensures c { assert!(c); }
 impl TDigestMut {
     // ---- invariant: integer part (unit td_int) ----
     spec fn cfg_ok(&self) -> bool { self.k >= 10 && self.centroids_capacity == cap_of_k(self.k) }
@@ -971,9 +972,11 @@ impl TDigestMut {
         TdImg { k: self.k, rm: self.reverse_merge, min: f64_bits(self.min), max: f64_bits(self.max), cents: cents_view(self.centroids@), buf: buf_view(self.buffer@) }
     }
 
+    // R12b: a DOCUMENTED panic ("# Panics: if k is less than 10", asserted in `make`) is modelled as 'returns only if the condition holds':
+    // a tagged POSTCONDITION (`*_validated`) instead of a precondition, so weakening or removing the check is noticed.  The internal
+    // callers of `make` (the parsers) keep their obligation as a ghost assert (C14.td.make_k_established) before the call.
     fn new(k: u16) -> (r: Self)
-      requires k >= 10
-      ensures r.view() == empty_img(k), r.wf(), r.wf_empty(), r.wf_single(), r.sorted_means(), r.means_in_range(), r.values_checked()
+      ensures /*@C10.new.k_validated*/ k >= 10, r.view() == empty_img(k), r.wf(), r.wf_empty(), r.wf_single(), r.sorted_means(), r.means_in_range(), r.values_checked()
     {
         proof { lemma_short_views(); reveal(TDigestMut::wf_empty); reveal(TDigestMut::wf_single); reveal(TDigestMut::sorted_means); reveal(TDigestMut::means_in_range); }
         Self::make(
@@ -996,10 +999,10 @@ impl TDigestMut {
         centroids_weight: u64,
         mut buffer: Vec<f64>,
     ) -> (r: Self)
-      requires k >= 10
-      ensures r.cfg_ok(), r.k == k, r.centroids@ == centroids@, r.buffer@ == buffer@, r.centroids_weight == centroids_weight, r.reverse_merge == reverse_merge, r.min == min, r.max == max,
+      ensures /*@C10.make.k_validated*/ k >= 10, r.cfg_ok(), r.k == k, r.centroids@ == centroids@, r.buffer@ == buffer@, r.centroids_weight == centroids_weight, r.reverse_merge == reverse_merge, r.min == min, r.max == max,
     {
-        assert!(k >= 10);
+        vx_documented_panic(k >= 10);
+        assert(/*@C10.make.k_validated*/ k >= 10);
 
         let fudge = if k < 30 { 30 } else { 10 };
         let centroids_capacity = (k as usize * 2) + fudge;
@@ -1238,6 +1241,7 @@ impl TDigestMut {
                 axiom_lt_irreflexive(value);
                 reveal(TDigestMut::wf_empty); reveal(TDigestMut::wf_single); reveal(TDigestMut::sorted_means); reveal(TDigestMut::means_in_range);
             }
+            assert(/*@C14.td.make_k_established*/ k >= 10);
             return Ok(TDigestMut::make(
                 k,
                 reverse_merge,
@@ -1352,6 +1356,7 @@ impl TDigestMut {
         proof {
             lemma_img_wsum(centroids@);
         }
+        assert(/*@C14.td.make_k_established*/ k >= 10);
         Ok(TDigestMut::make(
             k,
             reverse_merge,
@@ -1430,7 +1435,8 @@ impl TDigestMut {
                     }
                 }
                 proof { assert(buf_view(Seq::<f64>::empty()) =~= Seq::<u64>::empty()); }
-                Ok(TDigestMut::make(
+                assert(/*@C14.td.make_k_established*/ k >= 10);
+        Ok(TDigestMut::make(
                     k,
                     false,
                     min,
@@ -1490,7 +1496,8 @@ impl TDigestMut {
                     }
                 }
                 proof { assert(buf_view(Seq::<f64>::empty()) =~= Seq::<u64>::empty()); }
-                Ok(TDigestMut::make(
+                assert(/*@C14.td.make_k_established*/ k >= 10);
+        Ok(TDigestMut::make(
                     k,
                     false,
                     min,
